@@ -36,7 +36,9 @@ def derived_names(f: FunctionInfo, row) -> set:
     model variable directly) intersected with the forward closure of the model variables."""
     M = set(row["model"])
     MC = M | set(row.get("candidates", []))
-    skip = MC | {row["errs"], row.get("callback")}
+    # the data and its norm never make a reported value "fresh": freshness must come from
+    # the error term itself (a stale numerator over an up-to-date norm is still stale)
+    skip = MC | {row["errs"], row.get("callback"), row.get("data")} | set(row.get("norm", []))
     defs = []  # (targets, value)
     for s in own_scope_nodes(f.node):
         if isinstance(s, ast.Assign):
